@@ -84,6 +84,25 @@ def poll (c : Cfg) (s : Status) (inner : InnerAns) (attempt : AttemptAns) : Out 
         woke := (onDisconnect c.max c.perOutage c.wakeArm c.wakeExhaust left (.disconnected left)).2, childHolds := false }
   | .exhausted => { seen := .tooManyRetries, status := .exhausted, woke := false, childHolds := false }
 
+/-- one `poll_close`: Connected — the inner sink is closed (whatever it answers is passed on; once it is ready the
+    wrapper calls `on_disconnect`, which fires the waker); Disconnected — `keepsGoing`: the reconnection attempt is
+    polled as in the other operations, otherwise nothing is polled at all; Exhausted — too-many-retries -/
+def pollClose (c : Cfg) (keepsGoing : Bool) (s : Status) (inner : InnerAns) (attempt : AttemptAns) : Out :=
+  match s with
+  | .connected =>
+    match inner with
+    | .pending => { seen := .pending, status := .connected, woke := false, childHolds := true }
+    | .ready =>
+      { seen := .readyOk, status := (onDisconnect c.max c.perOutage c.wakeArm c.wakeExhaust c.max .connected).1,
+        woke := (onDisconnect c.max c.perOutage c.wakeArm c.wakeExhaust c.max .connected).2, childHolds := false }
+    | _ =>
+      { seen := .readyErr, status := (onDisconnect c.max c.perOutage c.wakeArm c.wakeExhaust c.max .connected).1,
+        woke := (onDisconnect c.max c.perOutage c.wakeArm c.wakeExhaust c.max .connected).2, childHolds := false }
+  | .disconnected left =>
+    if keepsGoing then poll c (.disconnected left) inner attempt
+    else { seen := .pending, status := .disconnected left, woke := false, childHolds := false }
+  | .exhausted => { seen := .tooManyRetries, status := .exhausted, woke := false, childHolds := false }
+
 /-- a wake-driven executor: the stream is polled again only if the previous poll returned a value, or fired the waker,
     or left it with something that will. Every reconnection attempt fails recoverably, the inner stream reports
     the loss: what the caller sees, poll after poll, until the first value. -/
